@@ -497,3 +497,58 @@ func unspillResult(rv ssa.Value, b *ssa.BasicBlock) ssa.Value {
 	}
 	return rv
 }
+
+// ruleC12Update (C12-UPDATE): the notification handlers hand every new text to the workspace: a call of
+// Workspace.UpdateFile in a handler (or a helper it calls) is control dependent only on the request's address
+// (path, presence of a workspace, presence of the document) - never on the text itself (a "nothing relevant
+// changed" short cut leaves the workspace's tree on an older version of the file).
+func ruleC12Update(c *Ctx) {
+	spk := c.P.SSAPkg("internal/server")
+	n := 0
+	for _, f := range c.P.ModuleFuncs() {
+		top := f
+		for top.Parent() != nil {
+			top = top.Parent()
+		}
+		if top.Pkg != spk {
+			continue
+		}
+		for _, call := range findCalls(f, func(cal *ssa.Function) bool { return calleeNameIs(cal, "workspace.Workspace).UpdateFile") }) {
+			n++
+			bad := ""
+			for _, cc := range controlDeps(call.Block()) {
+				for v := range backSlice(cc.Cond) {
+					switch x := v.(type) {
+					case *ssa.FieldAddr:
+						if nm := fieldVarOfAddr(x).Name(); nm == "Text" || nm == "ContentChanges" {
+							bad = "the notification's text"
+						}
+					case *ssa.Field:
+						if st, ok := x.X.Type().Underlying().(*types.Struct); ok {
+							if nm := st.Field(x.Field).Name(); nm == "Text" || nm == "ContentChanges" {
+								bad = "the notification's text"
+							}
+						}
+					case *ssa.Call:
+						// a comparison / inspection of document texts
+						if cal := x.Call.StaticCallee(); cal != nil {
+							for _, a := range x.Call.Args {
+								if b, ok := a.Type().Underlying().(*types.Basic); ok && b.Info()&types.IsString != 0 {
+									for w := range backSlice(a) {
+										if ta, ok := w.(*ssa.TypeAssert); ok && types.TypeString(ta.AssertedType, nil) == "string" {
+											bad = "the stored text of the document"
+										}
+									}
+								}
+							}
+						}
+					}
+				}
+			}
+			c.check(bad == "", "C12-UPDATE", funcName(f), "workspace update independent of the text", call.Pos(),
+				"the workspace receives the new text whenever the document has a path and a workspace exists",
+				"the workspace is only told about a change depending on "+bad+": its include tree and index can stay on an older version of the file, and references, rename, completion and hover are answered from it")
+		}
+	}
+	c.census("C12-UPDATE", "calls of Workspace.UpdateFile in the server", n, 2)
+}
